@@ -260,7 +260,7 @@ def _small_pc(seed, d, n=3):
     return PointCloud(np.round(r.rand(n, d) * 8 * 64) / 64)
 
 
-def mutators_for(case, x):
+def mutators_for(case, x, y=None):
     """List of (name, callable(x, seed)) public mutators applicable to this object; each returns True when it ran."""
     fam, oc = case["fam"], case["obj"]
     out = []
@@ -318,6 +318,21 @@ def mutators_for(case, x):
             return True
 
         out += [("compose_before_inplace", cbi), ("compose_after_inplace", cai)]
+        if y is not None:
+            # the OTHER side of the copy pair passed as the argument: composing a transform with its own copy
+            def cbi_other(o, s):
+                if not isinstance(y, o.composes_inplace_with):
+                    return False
+                o.compose_before_inplace(y)
+                return True
+
+            def cai_other(o, s):
+                if not isinstance(y, o.composes_inplace_with):
+                    return False
+                o.compose_after_inplace(y)
+                return True
+
+            out += [("compose_before_inplace(other side)", cbi_other), ("compose_after_inplace(other side)", cai_other)]
         if (kind.replace("Alignment", ""), d) not in (("Similarity", 3), ("Rotation", 2)):
             def fvi(o, s):
                 n = o.n_parameters
@@ -512,7 +527,7 @@ def c_object(case, ctx):
     c2 = o2.copy()
     x, y = (o2, c2) if side == "orig" else (c2, o2)
     d_y = rs.ndigest(y)
-    muts = mutators_for(case, x)
+    muts = mutators_for(case, x, y)
     for k, seed in case["ops"]:
         if not muts:
             break
@@ -582,7 +597,7 @@ def s_history(draw):
         owners.append({"kind": k, "seed": draw(st.integers(0, 999))})
     n_steps = draw(st.integers(4, 30))
     steps = []
-    kinds = ["set", "set", "set", "get", "get_none", "del", "query", "copy", "assign", "assign", "mutate_assigned", "mutate_assigned",
+    kinds = ["set", "set", "set", "set_own_group", "get", "get_none", "del", "query", "copy", "assign", "assign", "mutate_assigned", "mutate_assigned",
              "mutate_handle", "mutate_handle", "transform", "set_wrong_dim", "set_none", "set_bad_type", "glob", "get_missing"]
     for _ in range(n_steps):
         k = draw(st.sampled_from(kinds))
@@ -590,7 +605,7 @@ def s_history(draw):
         if k == "set":
             # the 5th entry (optional) makes one set in three re-use a name the manager already holds (a replacement)
             steps.append([k, slot, draw(s_name()), draw(s_lshape()), draw(st.integers(0, 31))])
-        elif k in ("get", "del", "get_missing"):
+        elif k in ("get", "del", "get_missing", "set_own_group"):
             steps.append([k, slot, draw(s_name()), draw(st.integers(0, 31))])
         elif k in ("get_none", "query", "copy"):
             steps.append([k, slot])
@@ -830,6 +845,26 @@ def c_history(case, ctx):
                 pending_assign = True
                 ctx.expect(m[name] is not sh, "history.set_stores_the_value_itself", "")
             ctx.expect(rs.ndiff(d_sh, rs.ndigest(sh)) is None, "history.set_mutated_value", "")
+        elif k == "set_own_group":
+            # the value assigned is a group fetched from THIS manager (the rename / duplicate idiom): it is stored as
+            # a copy like any other value
+            names = list(model)
+            if not names:
+                continue
+            src_name = names[step[3] % len(names)]
+            new_name = step[2]
+            g_src = m[src_name]
+            m[new_name] = g_src
+            g_new = m[new_name]
+            if new_name != src_name:
+                ctx.expect(g_new is not g_src and not np.shares_memory(np.asarray(g_new.points), np.asarray(g_src.points)),
+                           "history.set_own_group_stores_the_group_itself", "manager[%r] = manager[%r] aliases the two groups" % (new_name, src_name))
+                probe = np.array(g_src.points, copy=True)
+                g_new.points[0, 0] += 1.0
+                ctx.expect(np.array_equal(np.asarray(m[src_name].points), probe), "history.set_own_group_edit_reaches_source_group", "")
+                g_new.points[0, 0] -= 1.0
+            model[new_name] = model_value(g_new)
+            pending_assign = True
         elif k == "get":
             names = list(model)
             name = names[step[3] % len(names)] if names and step[3] % 3 else step[2]
@@ -965,9 +1000,75 @@ def c_history(case, ctx):
     ctx.event("slots=%d" % min(len(slots), 8))
 
 
+# ------------------------------------------------------------------------------------------ identity receivers
+_ID_CLASSES = ["Homogeneous", "Affine", "Similarity", "Rotation", "Translation", "UniformScale", "NonUniformScale"]
+
+
+def enum_identity(tier):
+    out = []
+    for cls in _ID_CLASSES:
+        for d in (2, 3):
+            for direction in ("before", "after"):
+                for arg in ("own_copy", "original_of_copy", "fresh"):
+                    for rep in range(2 if tier == "quick" else 12):
+                        out.append({"cls": cls, "d": d, "dir": direction, "arg": arg, "rep": rep})
+    return out
+
+
+def c_identity(case, ctx):
+    """A transform that is exactly the identity (init_identity) is composed in place with its own copy / a fresh
+    transform: afterwards receiver and argument are independent objects (no shared buffer; a write into the receiver's
+    matrix and a public re-parametrisation of the receiver are invisible in the argument, and vice versa)."""
+    import menpo.transform as mt
+
+    cls, d = getattr(mt, case["cls"]), case["d"]
+    t = cls.init_identity(d)
+    ctx.event("class=%s d=%d arg=%s" % (case["cls"], d, case["arg"]))
+    if case["arg"] == "own_copy":
+        recv, arg = t, t.copy()
+    elif case["arg"] == "original_of_copy":
+        recv, arg = t.copy(), t
+    else:
+        kind = case["cls"]
+        r = np.random.RandomState(case["rep"] * 7 + d)
+        if kind == "Translation":
+            arg = mt.Translation(np.round(r.rand(d) * 16) / 4 + 0.25)
+        elif kind == "UniformScale":
+            arg = mt.UniformScale(1.5 + case["rep"], d)
+        elif kind == "NonUniformScale":
+            arg = mt.NonUniformScale(np.arange(1, d + 1) + 0.5)
+        elif kind == "Rotation":
+            arg = mt.Rotation(gen.rotation_from_angles(d, [0.3 + 0.1 * case["rep"]] * gen.n_planes(d)))
+        else:
+            h = np.eye(d + 1)
+            h[:d, :d] = gen.rotation_from_angles(d, [0.4] * gen.n_planes(d)) * (1.25 + case["rep"])
+            h[:d, d] = np.arange(1, d + 1)
+            arg = cls(h)
+        recv = t
+    ctx.nontrivial(True)
+    d_arg = rs.ndigest(arg)
+    if not isinstance(arg, recv.composes_inplace_with):
+        return
+    if case["dir"] == "before":
+        recv.compose_before_inplace(arg)
+    else:
+        recv.compose_after_inplace(arg)
+    dd = rs.ndiff(d_arg, rs.ndigest(arg))
+    ctx.expect(dd is None, "identity_compose.argument_changed:" + case["cls"], lambda: repr(dd))
+    sh = [(a, b) for a, b in digest.shared_buffers(recv, arg) if not rs.sharing_allowed(a, b)]
+    ctx.expect(not sh, "identity_compose.receiver_aliases_argument:" + case["cls"], lambda: repr(sh[:3]))
+    # behavioural: edit the receiver's matrix, the argument must not move
+    recv.h_matrix[0, -1] += 3.0
+    dd = rs.ndiff(d_arg, rs.ndigest(arg))
+    ctx.expect(dd is None, "identity_compose.write_into_receiver_reaches_argument:" + case["cls"], lambda: repr(dd))
+
+
 CLAUSES = [
     Clause("objects", c_object, s_object, quick=4000, thorough=60000, nt_floor=0.5,
            rule="one object per case, copy, aliasing queries, sentinel write and 1-3 public mutators on a drawn side"),
     Clause("histories", c_history, s_history, quick=600, thorough=10000, nt_floor=0.3,
            rule="landmark-manager histories against an ordered-dict model; non-trivial: mutation after assignment / copy"),
+    Clause("identity_compose", c_identity, enumerate=enum_identity,
+           rule="exhaustive: 7 homogeneous classes x {2-D,3-D} x {before,after} x argument {own copy, original of a copy, fresh}: "
+                "an exact identity composed in place stays independent of its argument"),
 ]
